@@ -81,7 +81,7 @@ def graph():
         pmc = Const('pm_c', PAR); interp.append(pmc == arr(m))
         total += check('GRAPH_AX', GRAPH_AX, interp, {str(PAR): [pmc], str(T.z): U})
         if not any((x, x) in desc_of(m) for x in range(3)):
-            total += check('ROOT_AX', ROOT_AX, interp, {str(PAR): [pmc], str(T.z): U})
+            total += check('ROOT_AX', ROOT_AX_CORE, interp, {str(PAR): [pmc], str(T.z): U})
     return total
 
 
@@ -189,13 +189,118 @@ def lists():
                 if tuple(l3) in cz: interp.append(ins(c, pos, elems[x]) == cz[tuple(l3)])
     base = [c for lst, c in cz.items() if len(lst) <= 3 and all((lst + (x,)) in cz for x in range(2))]
     dom = {str(LT.z): [cz[l_] for l_ in pyl], str(T.z): elems, 'Int': [IntVal(k) for k in range(-1, 5)]}
-    n = check('LIST_AX', LIST_AX, interp, dom)
+    n = check('LIST_AX', LIST_AX_CORE, interp, dom)
     small = {str(LT.z): [cz[l_] for l_ in pyl if len(l_) <= 2], str(T.z): elems, 'Int': [IntVal(k) for k in range(0, 4)]}
     tiny = {str(LT.z): [cz[l_] for l_ in pyl if len(l_) <= 1], str(T.z): elems, 'Int': [IntVal(k) for k in range(0, 3)]}
     return n + check('LIST_INS_AX', LIST_INS_AX, interp, small) + check('LIST_CAT_AX', LIST_CAT_AX, interp, tiny) + check('LIST_TAKE_AX', LIST_TAKE_AX, interp, {**dom, 'Int': [IntVal(k) for k in range(0, 4)]}) + check('LIST_DL_AX', LIST_DL_AX, interp, {**dom, 'Int': [IntVal(k) for k in range(0, 4)]})
 
 
+def transposition():
+    """TRANSP_AX (skolemised, so checked in its existential reading): for ALL pairs of relations over 2 nodes + null (rows and columns for null included) - if no pair
+    (t, a) violates `(t != null and E2[t][a]) == (a != null and E[a][t])`, the two relations are both acyclic or both cyclic (edges as in DEP_AX: a -> x iff x != null and E[x][a])"""
+    global bad
+    Uc = [0, 1, 2]; NUL = 2; cells = [(x, a) for x in Uc for a in Uc]; n = 0
+    def acyc(E):
+        edges = {(a, x) for (x, a) in E if x != NUL}
+        d = set(edges); ch = True
+        while ch:
+            ch = False
+            for (a, b) in list(d):
+                for (b2, c) in list(d):
+                    if b == b2 and (a, c) not in d: d.add((a, c)); ch = True
+        return not any((x, x) in d for x in Uc)
+    rels = [frozenset(c for c, bit in zip(cells, bits) if bit) for bits in itertools.product((0, 1), repeat=9)]
+    ac = {E: acyc(E) for E in rels}
+    for E in rels:
+        # the only E2 without a violating pair on the rows t != null is determined; the null row of E2 is free
+        if any(a != NUL and (a, NUL) in E for a in Uc): continue          # (t = null): lhs false, rhs true -> violating pair exists for every E2
+        fixed = {(t, a) for t in Uc if t != NUL for a in Uc if a != NUL and (a, t) in E}
+        for extra in itertools.product((0, 1), repeat=3):
+            E2 = frozenset(fixed | {(NUL, a) for a, bit in zip(Uc, extra) if bit}); n += 1
+            if ac[E] != acyc(E2): bad += 1; print('TRANSP FALSE for', sorted(E), sorted(E2))
+    return n
+
+
+def closure():
+    """CLOSED_AX: every parent map over 3 nodes (+ null, cyclic ones included) x every subset of the nodes (and null) given as a list constant; closedL and the
+    skolem skc interpreted by the definition computed in Python (skc = a counterexample of closedness where there is one)"""
+    nodes = [Const(f'n{i}', T.z) for i in range(3)]; U = nodes + [null]; total = 0
+    subsets = [tuple(c) for k in range(5) for c in itertools.combinations(range(4), k)]
+    for m in itertools.product(range(4), repeat=3):
+        A = K(T.z, null)
+        for i in range(3): A = Store(A, nodes[i], U[m[i]])
+        par = lambda x: m[x] if x < 3 else 3
+        d = set()
+        for x in range(3):
+            a = m[x]; seen = set()
+            while a != 3 and a not in seen: d.add((a, x)); seen.add(a); a = par(a)
+        interp = [Distinct(*U)]
+        for ai, a in enumerate(U):
+            for xi, x in enumerate(U): interp.append(Desc(A, a, x) == ((ai, xi) in d))
+        Ls = []
+        for S in subsets:
+            L = Const('S_' + ''.join(map(str, S)) + '_', LT.z); Ls.append(L)
+            for xi, x in enumerate(U): interp.append(mem(L, x) == (xi in S))
+            bad_x = [x for x in range(4) if par(x) != 3 and par(x) in S and x not in S]
+            interp.append(closedL(A, L) == (not bad_x)); interp.append(skc(A, L) == U[bad_x[0] if bad_x else 3])
+        total += check('CLOSED_AX', CLOSED_AX, interp, {str(PAR): [A], str(LT.z): Ls, str(T.z): U})
+    return total
+
+
+def defined_predicates():
+    """INJ_AX, UNIQ_AX: inj / disj / uniq are fixed to their definitions computed in Python, the witness functions (owner_, side_, who_) and the skolems to
+    computed witnesses; every instance of the two directions must then be true.  Tasks n0, n1 (+ null), list objects o0..o2; parent maps over 3 nodes x ids in {0, 1}."""
+    total = 0
+    nodes = [Const(f'n{i}', T.z) for i in range(2)]; U = nodes + [null]
+    objs = [Const(f'o{i}', LR.z) for i in range(3)]
+    maps = list(itertools.product(range(3), repeat=2))
+    def arr(m):
+        a = K(T.z, LR.null)
+        for i in range(2): a = Store(a, nodes[i], objs[m[i]])
+        return a
+    interp = [Distinct(*U), Distinct(*objs, LR.null)]
+    for m in maps:
+        A = arr(m); ok = m[0] != m[1]
+        interp.append(inj(A) == ok)
+        if ok:
+            for i in range(2): interp.append(owner_(A, objs[m[i]]) == nodes[i])
+            interp += [isk1(A) == null, isk2(A) == null]
+        else: interp += [isk1(A) == nodes[0], isk2(A) == nodes[1]]
+        for m2 in maps:
+            B = arr(m2); clash = [(i, j) for i in range(2) for j in range(2) if m[i] == m2[j]]
+            interp.append(disj(A, B) == (not clash))
+            if not clash:
+                for o in range(3): interp.append(side_(A, B, objs[o]) == (0 if o in m else 1))
+                interp += [dsk1(A, B) == null, dsk2(A, B) == null]
+            else: interp += [dsk1(A, B) == nodes[clash[0][0]], dsk2(A, B) == nodes[clash[0][1]]]
+    total += check('INJ_AX', INJ_AX, interp, {str(OBJMAP): [arr(m) for m in maps], str(T.z): U})
+    # uniq over acyclic parent maps of 3 nodes (rootof is specified there) and all id maps into {0, 1}
+    nodes = [Const(f'n{i}', T.z) for i in range(3)]; U = nodes + [null]
+    for m in itertools.product(range(4), repeat=3):
+        def root_of(x):
+            seen = set()
+            while m[x] != 3 and x not in seen: seen.add(x); x = m[x]
+            return x if m[x] == 3 else None
+        if any(root_of(x) is None for x in range(3)): continue
+        A = K(T.z, null)
+        for i in range(3): A = Store(A, nodes[i], U[m[i]])
+        interp = [Distinct(*U)] + [rootof(A, nodes[i]) == nodes[root_of(i)] for i in range(3)]
+        ids = []
+        for iv in itertools.product(range(2), repeat=3):
+            I = K(T.z, IntVal(7))
+            for i in range(3): I = Store(I, nodes[i], IntVal(iv[i]))
+            ids.append(I)
+            bad_pairs = [(i, j) for i in range(3) for j in range(3) if i != j and root_of(i) == root_of(j) and iv[i] == iv[j]]
+            interp.append(uniq(A, I) == (not bad_pairs))
+            if not bad_pairs:
+                for i in range(3): interp.append(who_(A, I, nodes[root_of(i)], IntVal(iv[i])) == nodes[i])
+                interp += [usk1(A, I) == null, usk2(A, I) == null]
+            else: interp += [usk1(A, I) == nodes[bad_pairs[0][0]], usk2(A, I) == nodes[bad_pairs[0][1]]]
+        total += check('UNIQ_AX', UNIQ_AX, interp, {str(PAR): [A], str(IDM): ids, str(T.z): U})
+    return total
+
+
 if __name__ == '__main__':
-    n1 = graph(); n2 = deps(); n3 = lists()
+    n1 = graph(); n2 = deps(); n3 = lists(); n4 = closure(); n5 = defined_predicates(); n6 = transposition(); print(f'closure axiom instances checked: {n4}; defined predicates (inj / disj / uniq): {n5}; transposition: {n6}')
     print(f'axiom instances checked: graph {n1}, dependency {n2}, list {n3}; false instances: {bad}')
     sys.exit(1 if bad else 0)
